@@ -15,6 +15,9 @@ import (
 )
 
 func (ctrler *EVMCtrler) Query(req abcitypes.RequestQuery) ([]byte, xerrors.XError) {
+	if len(req.Data) < types.AddrSize*2 {
+		return nil, xerrors.ErrQuery.Wrapf("vm_call: data must start with the caller and contract addresses")
+	}
 	from := req.Data[:types.AddrSize]
 	to := req.Data[types.AddrSize : types.AddrSize*2]
 	data := req.Data[types.AddrSize*2:]
